@@ -27,6 +27,7 @@ class Walk:
         self.problem = None             # text when the loop itself is recognisably wrong
         self.unknown = None             # text when something after the loop is not understood
         self.final_use = None
+        self.stored_in = None
 
 
 def _lkey(F, e, at):
@@ -328,7 +329,10 @@ def follow(F, w: Walk, start_names):
             if isinstance(tgt, ast.Name):
                 names.add(tgt.id)                       # the derived list goes on under this name
                 continue
-            w.final_use = st                            # D[t] = <list> : stored in the result
+            w.final_use = st                            # D[t] = <list> : stored in a table
+            w.stored_in = tgt
+            if on_list(st.value):
+                continue                                # the very list object is stored: later in-place changes still apply to it
             return w
         if isinstance(st, ast.Return) and st.value is not None and mentions_list(st.value):
             parts = st.value.elts if isinstance(st.value, ast.Tuple) else [st.value]
